@@ -164,9 +164,17 @@ def family_noeffect(case, wd):
     simplex_cell = spec["cell"] in strategies.SIMPLEX or spec["cell"] == "prism"
     has_cell_integral = any(i["m"] == "dx" for i in spec["integrals"])
     try:
-        base = formcheck.FormRunner(spec, wd, name=f"b_{h}", built=built).compile()
+        if which == "sum_factorization":
+            base = formcheck.FormRunner(spec, wd, name=f"b_{h}", built=built).compile()
+        else:
+            # both modules through the JIT with the same compiler flags: bit-identity is only meaningful for one toolchain setting
+            # (gcc -O1 folds cosh(tanh(3.0)) at compile time, -O0 calls libm: 1 ulp apart)
+            objs0, jmod0, _ = kernels.jit_forms([built.form], options={"scalar_type": "float64"}, cache_dir=wd / f"jit0_{h}", cflags=("-O0", "-w"))
+            base = formcheck.FormRunner(spec, wd, name="unused", built=built).attach_jit(objs0[0], jmod0)
     except (kernels.Rejected, kernels.CompileError) as e:
         return Outcome("rejected", case_id=h, classes=classes, what=str(e)[:300])
+    except Exception as e:  # the JIT rejects the form as it stands
+        return Outcome("rejected", case_id=h, classes=classes, what=f"{type(e).__name__}: {e}"[:300])
     key = None
     try:
         if which == "sum_factorization":
